@@ -67,7 +67,8 @@ def explain(oracle):
         return "ok"
     if not oracle.startswith("FAIL ") or ":" not in oracle:
         return oracle
-    return "; ".join("request %s: %s" % (x.split(":")[0], CODES.get(x.split(":")[1], x)) for x in oracle[5:].split(","))
+    return "; ".join(("scenario: %s" % CODES["4"]) if x.startswith("alias:") else
+                     "request %s: %s" % (x.split(":")[0], CODES.get(x.split(":")[1], x)) for x in oracle[5:].split(","))
 
 
 def stats(chk, scen, tags, obs):
@@ -128,7 +129,21 @@ def run(chk, failed):
     sampled = 0
     for b in range(0, len(scens), per):
         chunk = scens[b:b + per]
-        res = run_batch(chk, chunk, "b%d" % (b // per), race=chk.thorough and (b // per) % 4 == 3)
+        race = chk.thorough and (b // per) % 4 == 3
+        try:
+            res = run_batch(chk, chunk, "b%d" % (b // per), race=race)
+        except ProbeCrashed as e:
+            # the probe survives panics of a scenario; what kills it is the race detector's report (exit 66) or a fatal
+            # runtime error of the implementation (concurrent map access ...)
+            data_race = "DATA RACE" in (e.out or "")
+            chk.violation("probe_died_b%d" % (b // per), {
+                "kind": "schedule", "probe": "evaluator/TestVerifProbeCache" + (" (-race)" if race else ""),
+                "case": chunk[0], "cases": chunk, "impl_output": (e.out or "")[-6000:],
+                "oracle_verdict": ("the race detector reports a data race in the evaluator while serving these scenarios"
+                                   if data_race else "the probe process died (rc %s) while serving these scenarios" % e.rc),
+                "broken": "no data race between requesters sharing one cached object / every request is answered",
+                "cmd": "bin/check C05 --tier thorough"}, found_input=data_race)
+            continue
         chk.evaluations += len(chunk)
         chk.traces_validated += len(chunk)
         for j, (o, oracle, replay, proj, obs) in enumerate(res):
